@@ -389,8 +389,15 @@ Arguments gt_features {tag}.
 Arguments gt_lookups {tag}.
 
 Inductive outlines : Type :=
-| OGlyf (widths : option (list Z))   (* glyf.Outlines.Widths, possibly nil *)
+| OGlyf (nglyphs : N) (widths : option (list Z))   (* len(glyf.Outlines.Glyphs); glyf.Outlines.Widths, possibly nil *)
 | OCff (widths : list Z).            (* cff.Outlines.Glyphs[i].Width *)
+
+(* Font.NumGlyphs() = len(Outlines.Glyphs) *)
+Definition num_glyphs (o : outlines) : N :=
+  match o with
+  | OGlyf n _ => n
+  | OCff w => N.of_nat (length w)
+  end.
 
 Record font (tag : Type) : Type := mkFont {
   f_cmap : list (N * N);              (* the best cmap subtable: rune -> gid *)
@@ -426,20 +433,28 @@ Definition is_mark (gdef : option (list (N * N))) (gid : N) : bool :=
 (* Font.GlyphWidth: indexes the glyph/width slice *)
 Definition glyph_width (o : outlines) (gid : N) : outcome Z :=
   match o with
-  | OGlyf None => Ok 0%Z
-  | OGlyf (Some w) | OCff w =>
+  | OGlyf _ None => Ok 0%Z
+  | OGlyf _ (Some w) | OCff w =>
       match nth_error w (N.to_nat gid) with
       | Some x => Ok x
       | None => Panic
       end
   end.
 
+(* the width loop of Layout, as repaired by fixes/C07-layout-gid-beyond-font.diff:
+     numGlyphs := font.NumGlyphs()
+     for i := range seq {
+       gid := seq[i].GID
+       if int(gid) >= numGlyphs { continue }   // no such glyph: no width
+       if !font.Gdef.IsMark(gid) { seq[i].Advance = funit.Int16(font.GlyphWidth(gid)) }
+     } *)
 Fixpoint set_widths (o : outlines) (gdef : option (list (N * N))) (seq : list ginfo)
   : outcome (list ginfo) :=
   match seq with
   | [] => Ok []
   | g :: rest =>
-      g' <- (if is_mark gdef (g_gid g) then Ok g
+      g' <- (if num_glyphs o <=? g_gid g then Ok g
+             else if is_mark gdef (g_gid g) then Ok g
              else w <- glyph_width o (g_gid g) ;;
                   Ok (mkG (g_gid g) (g_text g) (g_xoff g) (g_yoff g) w)) ;;
       rest' <- set_widths o gdef rest ;;
